@@ -270,6 +270,7 @@ func scripted() []*handshake {
 	}
 	hs = append(hs, stepFailHandshakes()...)
 	hs = append(hs, refusalHandshakes()...)
+	hs = append(hs, headerRefusalHandshakes()...)
 	for _, h := range hs {
 		h.MaxBytes, h.MaxOps = scriptedMaxBytes, scriptedMaxOps
 		h.Key, h.Chunk = h.Name, readChunk
